@@ -25,6 +25,8 @@ macro_rules! dispatch {
             "C03" => $f(&checks::c03::C03, $($arg),*),
             "C04" => $f(&checks::c04::C04, $($arg),*),
             "C06" => $f(&checks::c06::C06, $($arg),*),
+            "C07" => $f(&checks::c07::C07, $($arg),*),
+            "C08" => $f(&checks::c08::C08, $($arg),*),
             "C12" => $f(&checks::c12::C12, $($arg),*),
             "C05" => $f(&checks::c05::C05, $($arg),*),
             other => {
